@@ -182,7 +182,7 @@ func init() {
 	register(&PropDef{
 		ID:    "C01",
 		Level: "model_checking",
-		Rule: "families F-seq (no checks, <=1 failing action at every position, c x t grid), F-chk (every subset of the five check groups at plan or block level, 0/1 failing group) and sharp scenarios; " +
+		Rule: "families F-seq (no checks, <=1 failing action at every position, c x t grid), F-chk (every subset of the five check groups at plan or block level, 0-2 failing groups), sharp scenarios and the crash layer (every durable state of crash scenarios restarted: predecessor success, block order and pre-check gating hold for what the restarted process invokes, with what was durable counting as done); " +
 			"every order of visible operations within the deviation bound; each plugin invocation is checked against the events preceding it; " +
 			"distinct_nontrivial = distinct states in which two or more logical threads were enabled",
 		Assumptions: []string{"a free worker-pool runner always exists (64 runners)", "engine internals between two visible operations are atomic (I/O granularity)", "continuous checks are background by definition and excluded from 'last'"},
@@ -206,6 +206,16 @@ func init() {
 				}
 				items = append(items, explore("C01", sc, b+1, true))
 			}
+			// the order across a crash: every durable state of the crash scenarios with check groups, several actions per
+			// sequence or two blocks is restarted
+			var crash []*Scenario
+			for _, sc := range FamilyCrash(tier) {
+				n := sc.Name
+				if strings.HasPrefix(n, "crash-chk-") || strings.HasPrefix(n, "crash-b2-n2-a2-c2-") || strings.HasPrefix(n, "crash-b1-n2-a2-") || n == "crash-all-groups" || strings.HasSuffix(n, "-def") || tier == "thorough" {
+					crash = append(crash, sc)
+				}
+			}
+			items = append(items, crashItems("C01", tier, crash)...)
 			// timeouts, retries and late answers inside a sequence (the next action must still wait for a real success)
 			for _, sc := range FamilyRetry(tier) {
 				if strings.HasPrefix(sc.Name, "retry-seq-r") || strings.HasPrefix(sc.Name, "retry-chk-r0") || strings.HasPrefix(sc.Name, "retry-chk-r1") {
